@@ -214,7 +214,9 @@ func setDeadline(ctx context.Context, conn net.Conn) context.CancelFunc {
 
 func setWriteDeadline(ctx context.Context, conn net.Conn) context.CancelFunc {
 	cancelCtx, cancel := context.WithCancel(context.Background())
+	done := make(chan struct{})
 	go func() {
+		defer close(done)
 		select {
 		case <-ctx.Done():
 			/* #nosec */
@@ -224,7 +226,13 @@ func setWriteDeadline(ctx context.Context, conn net.Conn) context.CancelFunc {
 		case <-cancelCtx.Done():
 		}
 	}()
-	return cancel
+	// The returned function is called by the writer while it still holds the
+	// output lock; wait for the goroutine so that a deadline can never be set
+	// after the lock has been released and interrupt the write of another call.
+	return func() {
+		cancel()
+		<-done
+	}
 }
 
 func negotiateSession(ctx context.Context, location, origin jid.JID, rw io.ReadWriter, state SessionState, negotiate Negotiator) (*Session, error) {
